@@ -73,17 +73,22 @@ def singleton_idiom(facts, cmp_paths, P, env, oroot):
     """`1 == c.size() && 1 == o.c.size()` together with equality of
     c.begin()->first and ->second (or of *c.begin()) proves c == o.c"""
     sized = {}
+    empty = {}
     for atom, pol in facts:
         if not pol or atom.get("k") not in ("bin", "op") \
                 or atom.get("op") != "==":
             continue
         a, b = atom["a"]
         for x, y in ((a, b), (b, a)):
-            if x.get("k") == "lit" and str(x.get("v")) == "1":
+            if x.get("k") == "lit" and str(x.get("v")) in ("0", "1"):
                 r = P.norm(y, env)
                 if r and r[1] and r[1][-1] == "size()":
-                    sized.setdefault(r[1][:-1], set()).add(r[0])
+                    (sized if str(x.get("v")) == "1" else empty).setdefault(
+                        r[1][:-1], set()).add(r[0])
     out = set()
+    for c, roots in empty.items():
+        if roots >= {"this", oroot}:
+            out.add(c)      # both containers are empty, hence equal
     for c, roots in sized.items():
         if roots >= {"this", oroot}:
             b = c + ("begin()",)
